@@ -2651,6 +2651,27 @@ theorem runSkipN_gcd (fuel : Nat) (inputs : List (List Candle)) (e : Engine M) (
          (fun _ => (inputs.getD 0 []).length)) :=
   runSkipN_all u fuel inputs e t0 _ hal hstep (fun s _ m hm => gcdList_dvd_tfsRaw e.cfg s m hm) hi
 
+/-! ### what a reader gets, stated on the engine -/
+
+theorem spaced_pairwise (t0 : Int) (rows : List Candle) (h : Spaced t0 rows) : rows.Pairwise (fun a b => a.ts < b.ts) := by
+  rw [List.pairwise_iff_getElem]
+  intro i j hi hj hij
+  rw [h i hi, h j hj]
+  have : (i : Int) < (j : Int) := by exact_mod_cast hij
+  omega
+
+/-- WHAT A READER GETS: whenever a symbol's store satisfies `EInv` — by `runStepN_all` / `runSkipN_all` after every
+    iteration of either simulator, for every strategy — `get_candles` of every bigger timeframe of the symbol returns
+    exactly one candle per started window of the stored minutes, each the aggregate of its minutes, and
+    `get_current_candle` returns the last of them. -/
+theorem reader_sees_aggregates (e : Engine M) (sym : Nat) (t0 : Int) (rows : List Candle) (m : Nat)
+    (hal : AlignedCfg e.cfg sym t0) (hi : EInv e sym t0 rows) (hm : m ∈ tfsRaw e.cfg sym) :
+    getCandles (storeOf e sym).short (longOf (storeOf e sym) m) m = .ok (visible m rows) ∧
+    getCurrentCandle (storeOf e sym).short (longOf (storeOf e sym) m) m = .ok (visible m rows).getLast? := by
+  rw [hi.short]
+  exact ⟨get_candles_spec m rows _ (hal.2 m hm).1 (hi.inv m hm) (spaced_pairwise t0 rows hi.spaced),
+    get_current_candle_spec m rows _ (hal.2 m hm).1 (hi.inv m hm)⟩
+
 end run
 
 end C07
